@@ -40,6 +40,8 @@ func obsBreaker(calls []CallD, o OutD) (bool, bool) {
 	cb := applyHandle(circuitbreaker.Builder[int](), calls).Build()
 	r, e := o.Go()
 	switch {
+	case e == nil && r == 0 && len(calls)%2 == 1:
+		cb.RecordError(nil) // the outcome (zero result, no error) recorded through the error-side method
 	case e == nil:
 		cb.RecordResult(r)
 	case r == 0:
@@ -54,9 +56,13 @@ func applyAbortRetry(b retrypolicy.RetryPolicyBuilder[int], calls []CallD) retry
 	for _, c := range calls {
 		switch c.K {
 		case "Errors":
-			b = b.AbortOnErrors(c.errs()...)
+			es := c.errs()
+			b = b.AbortOnErrors(es...)
+			clobberErrs(es)
 		case "ErrorTypes":
-			b = b.AbortOnErrorTypes(c.tgts()...)
+			ts := c.tgts()
+			b = b.AbortOnErrorTypes(ts...)
+			clobberAny(ts)
 		case "Result":
 			b = b.AbortOnResult(int(c.R))
 		default:
@@ -70,9 +76,13 @@ func applyCancelHedge(b hedgepolicy.HedgePolicyBuilder[int], calls []CallD) hedg
 	for _, c := range calls {
 		switch c.K {
 		case "Errors":
-			b = b.CancelOnErrors(c.errs()...)
+			es := c.errs()
+			b = b.CancelOnErrors(es...)
+			clobberErrs(es)
 		case "ErrorTypes":
-			b = b.CancelOnErrorTypes(c.tgts()...)
+			ts := c.tgts()
+			b = b.CancelOnErrorTypes(ts...)
+			clobberAny(ts)
 		case "Result":
 			b = b.CancelOnResult(int(c.R))
 		default:
@@ -128,7 +138,9 @@ func obsRetryPtr(calls []CallD, o OutD) bool {
 		if c.K == "Result" {
 			b = b.HandleResult(fresh(c.R))
 		} else {
-			b = b.HandleErrors(c.errs()...)
+			es := c.errs()
+			b = b.HandleErrors(es...)
+			clobberErrs(es)
 		}
 	}
 	n := 0
@@ -143,7 +155,9 @@ func obsAbortPtr(calls []CallD, o OutD) bool {
 		if c.K == "Result" {
 			b = b.AbortOnResult(fresh(c.R))
 		} else {
-			b = b.AbortOnErrors(c.errs()...)
+			es := c.errs()
+			b = b.AbortOnErrors(es...)
+			clobberErrs(es)
 		}
 	}
 	n := 0
@@ -160,7 +174,9 @@ func obsHedgePtr(t *testing.T, calls []CallD, o OutD) bool {
 			if c.K == "Result" {
 				b = b.CancelOnResult(fresh(c.R))
 			} else {
-				b = b.CancelOnErrors(c.errs()...)
+				es := c.errs()
+				b = b.CancelOnErrors(es...)
+				clobberErrs(es)
 			}
 		}
 		r, e := o.Go()
